@@ -1,6 +1,7 @@
 SPECIFICATION Spec
 CONSTANTS
   PIDS = {256, 257}
+  RESV = {17}
   Period = 3
   MaxOps = 5
   Dev = {}
